@@ -59,7 +59,7 @@ type C06Srv struct {
 	mu       sync.Mutex
 	prefixes []string // only commands on keys with one of these prefixes belong to the running case
 	mode     string   // "" | down | get | set | del
-	filt     string // "" or first byte of the keys the fault applies to
+	filt     string   // "" or first byte of the keys the fault applies to
 	log      []C06Cmd
 	injected int
 }
